@@ -206,6 +206,8 @@ class Check:
         src = (COQ / props_file).read_text()
         names = re.findall(r"^(?:Theorem|Lemma|Corollary|Example)\s+(\w+)", src, re.M)
         dep_targets = [d.replace(".v", ".vo") for d in deps]
+        # models and libraries are also needed by the vm_compute correspondence runs
+        dep_targets += [f.replace(".v", ".vo") for f in coq_project_files() if f.split("/")[0] in ("lib", "model", "gen")]
         rc, out = coq_make(dep_targets + [props_file.replace(".v", ".vo")])
         self.checker_cmds.append(f"make -C coq {props_file.replace('.v', '.vo')} && coqc {props_file} (Coq 8.16.1 kernel, full .vo build)")
         if rc != 0:
